@@ -603,3 +603,45 @@ def reachable_correlated(fn, starts, avoid, decided):
                 seen.add(s)
                 dq.append(s)
     return seen
+
+
+def derivation_fields(F, fn):
+    """for every local of fn: the set of field names its value was derived through (moves/borrows of places with field
+    projections, results of calls on derived arguments, closures built in the same block and passed along)"""
+    base = re.compile(r"_\d+")
+    fields = defaultdict(set)
+    changed = True
+    # fields read inside closures constructed in a block are attributed to the call consuming the closure in that block
+    clos_fields = {}
+    for i, b in enumerate(fn.blocks):
+        s = set()
+        for e in b["e"]:
+            if e[0] == "closure" and e[1] in F.fns:
+                for _, ce in family_events(F, F.fns[e[1]], "fld"):
+                    s.add(ce[2])
+        clos_fields[i] = s
+    while changed:
+        changed = False
+        for i, b in enumerate(fn.blocks):
+            for e in b["e"]:
+                if e[0] == "mv":
+                    new = set(re.findall(r"\.([A-Za-z_][A-Za-z0-9_]*)", e[2]))
+                    for x in base.findall(e[2]):
+                        new |= fields.get(x, set())
+                    if not new <= fields[e[1]]:
+                        fields[e[1]] |= new
+                        changed = True
+            if b["k"] == "call":
+                d = base.match(b.get("dest") or "")
+                if d:
+                    new = set()
+                    for a in b["args"]:
+                        new |= set(re.findall(r"\.([A-Za-z_][A-Za-z0-9_]*)", a))
+                        for x in base.findall(a):
+                            new |= fields.get(x, set())
+                    if new:
+                        new |= clos_fields.get(i, set())
+                    if not new <= fields[d.group(0)]:
+                        fields[d.group(0)] |= new
+                        changed = True
+    return fields
